@@ -15,7 +15,7 @@ MANIFEST = dict(
 
 
 def gen_ops(tier, rng):
-    nparams, nvals = 12, 16
+    nparams, nvals = 30, 16
     nparams_wide = 70          # one parameter list with more parameters than a machine word has bits (positions 0..69)
     ops = ['params %d' % nparams, 'vals %d' % nvals, 'wide %d' % nparams_wide]
     nsub = 0
